@@ -359,12 +359,63 @@ func runPath1(m *Model, r *RuleResult) {
 type pathEnds struct {
 	f     *ssa.Function
 	loops []*loopInfo
+	bind  map[*ssa.Parameter]string // parameters of a helper, resolved at its call site
+	depth int
+}
+
+// viaHelper: v is the result of a same-package helper; its first/last element is that of every return of the helper, with the helper's
+// point parameters bound to what the caller passes.
+func (pe *pathEnds) viaHelper(v ssa.Value, last bool) (string, bool) {
+	call, ok := v.(*ssa.Call)
+	if !ok || pe.depth > 2 {
+		return "", false
+	}
+	callee := call.Call.StaticCallee()
+	if callee == nil || pkgPathOf(callee) != pkgPathOf(pe.f) || len(callee.Blocks) == 0 || callee.Signature.Results().Len() != 1 || !isSliceOfGeom(callee.Signature.Results().At(0).Type(), "P") {
+		return "", false
+	}
+	sub := &pathEnds{f: callee, loops: naturalLoops(callee), bind: map[*ssa.Parameter]string{}, depth: pe.depth + 1}
+	for i, p := range callee.Params {
+		if i < len(call.Call.Args) && isGeomNamed(p.Type(), "P") {
+			sub.bind[p] = pe.point(call.Call.Args[i])
+		}
+	}
+	res := ""
+	n := 0
+	eachInstr(callee, func(in ssa.Instruction) {
+		ret, ok := in.(*ssa.Return)
+		if !ok || len(ret.Results) != 1 {
+			return
+		}
+		n++
+		s := ""
+		if last {
+			s = sub.last(ret.Results[0], 0)
+		} else {
+			s = sub.first(ret.Results[0], 0)
+		}
+		if res == "" {
+			res = s
+		} else if res != s {
+			res = "?"
+		}
+	})
+	if n == 0 {
+		return "?", true
+	}
+	return res, true
 }
 
 // point resolves a value to one of the two point parameters ("start" = first, "end" = second) or "?".
 func (pe *pathEnds) point(v ssa.Value) string {
 	switch x := v.(type) {
 	case *ssa.Parameter:
+		if pe.bind != nil {
+			if s, ok := pe.bind[x]; ok {
+				return s
+			}
+			return "?"
+		}
 		for i, p := range pe.f.Params {
 			if p == x {
 				if i == 0 {
@@ -517,6 +568,9 @@ func (pe *pathEnds) first(v ssa.Value, depth int) string {
 	if x, ok := passThrough(v); ok {
 		return pe.first(x, depth+1)
 	}
+	if s, ok := pe.viaHelper(v, false); ok {
+		return s
+	}
 	if el, ok := literalElems(v); ok && len(el) > 0 {
 		return pe.point(el[0])
 	}
@@ -619,6 +673,9 @@ func (pe *pathEnds) last(v ssa.Value, depth int) string {
 	}
 	if x, ok := passThrough(v); ok {
 		return pe.last(x, depth+1)
+	}
+	if s, ok := pe.viaHelper(v, true); ok {
+		return s
 	}
 	if el, ok := literalElems(v); ok && len(el) > 0 {
 		return pe.point(el[len(el)-1])
@@ -977,6 +1034,36 @@ func (c *mirrorCmp) node(a, b ast.Node) bool {
 			return c.node(x.X, y.X)
 		}
 		if x.Sel.Name != y.Sel.Name {
+			// two methods of one module type (the wedge tests as methods of a funnel struct): compared like a pair of closures
+			fx, _ := c.info.Uses[x.Sel].(*types.Func)
+			fy, _ := c.info.Uses[y.Sel].(*types.Func)
+			if fx != nil && fy != nil && c.m.Decl[fx] != nil && c.m.Decl[fy] != nil && c.m.DeclPkg[fx] == c.m.DeclPkg[fy] {
+				if !c.node(x.X, y.X) {
+					return false
+				}
+				k := [2]types.Object{fx, fy}
+				if c.done[k] {
+					return true
+				}
+				c.done[k] = true
+				dx, dy := c.m.Decl[fx], c.m.Decl[fy]
+				c.regions = append(c.regions, [2]ast.Node{dx, dy})
+				ok := true
+				rx, ry := fieldNames(dx.Recv), fieldNames(dy.Recv)
+				px, py := fieldNames(dx.Type.Params), fieldNames(dy.Type.Params)
+				if len(rx) != len(ry) || len(px) != len(py) {
+					ok = c.fail(a, "methods %s and %s have different shapes", x.Sel.Name, y.Sel.Name)
+				}
+				for i := 0; ok && i < len(rx); i++ {
+					ok = c.idents(rx[i], ry[i])
+				}
+				for i := 0; ok && i < len(px); i++ {
+					ok = c.idents(px[i], py[i])
+				}
+				ok = ok && c.node(dx.Body, dy.Body)
+				c.regions = c.regions[:len(c.regions)-1]
+				return ok
+			}
 			return c.fail(a, "selector %s does not correspond to %s", x.Sel.Name, y.Sel.Name)
 		}
 		return c.node(x.X, y.X)
